@@ -2,6 +2,7 @@ import CkbVerif.Driver.Util
 import CkbVerif.Driver.C02
 import CkbVerif.Model.Freeze
 import CkbVerif.Model.FreezeCodec
+import CkbVerif.Model.FreezeCache
 
 /-! Line-protocol driver for C10 (protocol: harness/n10/src/c10.rs): the C02 ops build the chain
 (answered exactly like the C02 driver), `freeze` / `restart` / `query` run `Model/Freeze.lean`.
@@ -30,6 +31,10 @@ structure St where
   synced : Nat := 1
   /-- `fzmax`: data-file size limit -/
   fzmax : Nat := 2000000000
+  /-- the store's read caches (`Model/FreezeCache.lean`); `none` = not tracked (the node or the
+  harness has read through them since the last `restart`); `restart` empties them, `prime` / `probe`
+  read through them, `freeze bare` leaves them alone (the pass never touches a cache) -/
+  caches : Option FreezeCache.Caches := none
 
 def toFS (s : St) : FS :=
   { v := s.c.v,
@@ -110,7 +115,7 @@ def query (s : St) : String :=
   " ".intercalate ([s!"frozen={frozenNumber f}", s!"tip={tip}"] ++ bs ++ ts ++
     (if splitAt s then ["MODEL-SPLIT"] else []))
 
-def step (s : St) (ts : List String) : St × String :=
+def stepCore (s : St) (ts : List String) : St × String :=
   match ts with
   | "freeze" :: _ =>
     -- `freeze` / `freeze cold` (the harness evaluates no accessor before the pass): the same pass
@@ -171,6 +176,83 @@ def step (s : St) (ts : List String) : St × String :=
   | _ =>
     let (c', out) := C02.step s.c ts
     ({ s with c := c' }, out)
+
+/-! ### the store caches: `prime <id> <accessors>` / `probe <id>` (protocol: harness c10.rs) -/
+
+open FreezeCache in
+/-- one accessor call through the caches; `H` get_block_header, `U` get_block_uncles, `P`
+get_block_proposal_txs_ids, `X` get_block_txs_hashes, `E` get_block_extension, `B` get_block,
+`K` get_packed_block, `T` get_block_body, `C` get_cellbase -/
+def touch (f : FS) (c : Caches) (id : Nat) (a : Char) : Caches :=
+  match a with
+  | 'H' => (hdrC f c id).2
+  | 'U' => (unclesC f c id).2
+  | 'P' => (proposalsC f c id).2
+  | 'X' => (txhC f c id).2
+  | 'E' => (extC f c id).2
+  | 'B' => (blockC f c id).2
+  | 'K' => (packedC f c id).2
+  | 'T' => (bodyC f c id).2
+  | 'C' => (cellbaseC f c id).2
+  | _ => c
+
+open FreezeCache in
+/-- `probe <id>`: every accessor, warm, in the order of the harness (get_block first) -/
+def probe (s : St) (c : Caches) (id : Nat) (orig : Block) : Caches × String :=
+  let f := toFS s
+  let whole (g : Got) : String := if g.whole && g.blk == orig && g.blk.id == id then "=" else "~"
+  let (b, c1) := blockC f c id
+  let (h, c2) := hdrC f c1 id
+  let (t, c3) := bodyC f c2 id
+  let (x, c4) := txhC f c3 id
+  let (cb, c5) := cellbaseC f c4 id
+  let (u, c6) := unclesC f c5 id
+  let (p, c7) := proposalsC f c6 id
+  let (e, c8) := extC f c7 id
+  let (k, c9) := packedC f c8 id
+  let bs := match b with | .some g => whole g | .none => "-" | .panic => "P"
+  let ks := match k with | some g => whole g | none => "-"
+  (c9, s!"p{id}:{bs}{flag h.isSome}{flag cb.isSome}{flag u.isSome}{flag p.isSome}{flag (e.isSome && id != 0)}{ks} t{t.length} x{x.length}")
+
+def step (s : St) (ts : List String) : St × String :=
+  match ts with
+  | ["prime", id, accs] =>
+    match parseNat? id, s.caches with
+    | some i, some c =>
+      ({ s with caches := some (accs.toList.foldl (fun c a => touch (toFS s) c i a) c) }, "ok")
+    | some _, none => (s, "caches-not-tracked")
+    | none, _ => (s, "bad-op")
+  | ["probe", id] =>
+    match parseNat? id, s.caches with
+    | some i, some c =>
+      match C02.lookup s.c.blocks i with
+      | some orig =>
+        let (c', out) := probe s c i orig
+        ({ s with caches := some c' }, out)
+      | none => (s, "bad-op")
+    | some _, none => (s, "caches-not-tracked")
+    | none, _ => (s, "bad-op")
+  | ["users"] =>
+    -- the RPC-level users of the store (harness `users`): the counts of the light-client replies and
+    -- of the block-filter builder; their contents are judged by the harness against the original blocks
+    let f := toFS s
+    let ids := s.c.blocks.map (·.1)
+    let main := ids.filter fun id => (f.v.m.rindex id).isSome
+    -- (transactions of the tip block are not asked for)
+    let infos := ((s.c.txs.map (·.1)).filterMap fun t => f.v.m.txInfo t).filter fun i => some i.blockId != f.v.m.tip
+    let blks := (infos.map (·.blockId)).eraseDups
+    -- GetBlocksProof asks for every block but the tip: main-chain ones are proved, the others missing
+    let bp := if ids.length ≤ 1 then "0/0" else s!"{main.length - 1}/{ids.length - main.length}"
+    let tp := if infos.isEmpty then "0/0" else s!"{blks.length}/{infos.length}"
+    ({ s with caches := none }, s!"bp={bp} tp={tp} flt={main.length}")
+  | _ =>
+    let (s', out) := stepCore s ts
+    let keep := match ts with
+      | ["freeze", "bare"] => s.caches
+      | ["restart"] => some {}
+      | ["fzmax", _] => s.caches
+      | _ => none
+    ({ s' with caches := keep }, out)
 
 def main (args : List String) : IO UInt32 :=
   runLines ({ preF17 := args.contains "pre-f17", preF18 := args.contains "pre-f18" } : St) step
